@@ -442,4 +442,608 @@ theorem rotEntries_noSecret (C : Cipher) (old new : Str) :
     exact ⟨h2.1.trans h1.1, h2.2.1.trans h1.2.1, h2.2.2.trans h1.2.2⟩
 end
 
+/-! ### sharing: all nodes of one anchor are equal in the output -/
+
+mutual
+/-- number of nodes -/
+def nsize : Node → Nat
+  | .scalar _ _ => 1
+  | .seq _ xs => 1 + nsizeL xs
+  | .map _ es => 1 + nsizeE es
+  | .set _ _ => 1
+def nsizeL : List Node → Nat
+  | [] => 0
+  | x :: xs => nsize x + nsizeL xs
+def nsizeE : List (Key × Node) → Nat
+  | [] => 0
+  | (_, x) :: es => nsize x + nsizeE es
+end
+
+theorem nsize_seq (a : Option Str) (xs : List Node) : nsize (.seq a xs) = 1 + nsizeL xs := by unfold nsize; rfl
+theorem nsize_map (a : Option Str) (es : List (Key × Node)) : nsize (.map a es) = 1 + nsizeE es := by
+  unfold nsize; rfl
+theorem nsizeL_cons (x : Node) (xs : List Node) : nsizeL (x :: xs) = nsize x + nsizeL xs := by
+  simp only [nsizeL]
+theorem nsizeE_cons (k : Key) (x : Node) (es : List (Key × Node)) : nsizeE ((k, x) :: es) = nsize x + nsizeE es := by
+  simp only [nsizeE]
+
+/-- the anchor table only grows: a recorded image is never replaced -/
+def Ext (s s' : List (Str × Node)) : Prop := ∀ an n', s.lookup an = some n' → s'.lookup an = some n'
+
+theorem Ext.refl (s : List (Str × Node)) : Ext s s := fun _ _ h => h
+
+theorem Ext.trans {s1 s2 s3 : List (Str × Node)} (h1 : Ext s1 s2) (h2 : Ext s2 s3) : Ext s1 s3 :=
+  fun an n' h => h2 an n' (h1 an n' h)
+
+theorem lookup_cons_self (an : Str) (n : Node) (s : List (Str × Node)) : ((an, n) :: s).lookup an = some n := by
+  simp
+
+theorem lookup_cons_ne {an an' : Str} (h : an' ≠ an) (n : Node) (s : List (Str × Node)) :
+    ((an, n) :: s).lookup an' = s.lookup an' := by
+  have : (an' == an) = false := by simp [h]
+  rw [List.lookup_cons, this]
+
+theorem ext_cons {an : Str} {s : List (Str × Node)} (h : s.lookup an = none) (n : Node) : Ext s ((an, n) :: s) := by
+  intro an' n' hl
+  have : an' ≠ an := by intro e; subst e; rw [h] at hl; cases hl
+  rw [lookup_cons_ne this]; exact hl
+
+/-- the nodes the loop records under their anchor: encrypted scalars and containers -/
+def recordable : Node → Bool
+  | .scalar _ (.str s) => isEyaml s
+  | .seq .. | .map .. => true
+  | _ => false
+
+mutual
+/-- an anchor recorded while a node is walked names a node no bigger than the walked one -/
+theorem rotNode_new (C : Cipher) (old new : Str) (tbl : Str → Option Node) :
+    ∀ (n : Node) (st : St) (an : Str), WF C old tbl n → st.seen.lookup an = none →
+      (rotNode C old new n st).2.seen.lookup an ≠ none → ∃ m, tbl an = some m ∧ nsize m ≤ nsize n
+  | .scalar a v, st, an, hwf, hn, hs => by
+    unfold WF at hwf
+    unfold rotNode at hs
+    cases v with
+    | str s =>
+      simp only [] at hs
+      by_cases he : isEyaml s = true
+      · simp only [he, if_true] at hs
+        cases a with
+        | none => simp only [rotValue_seen] at hs; exact absurd hn hs
+        | some an0 =>
+          simp only [] at hs
+          cases hl : st.seen.lookup an0 with
+          | some n' => simp only [hl] at hs; exact absurd hn hs
+          | none =>
+            simp only [hl] at hs
+            by_cases e : an = an0
+            · subst e; exact ⟨_, hwf.1 an rfl, Nat.le_refl _⟩
+            · rw [lookup_cons_ne e, rotValue_seen] at hs; exact absurd hn hs
+      · simp only [he] at hs; exact absurd hn hs
+    | _ => exact absurd hn hs
+  | .seq a xs, st, an, hwf, hn, hs => by
+    unfold WF at hwf
+    unfold rotNode at hs
+    cases a with
+    | none =>
+      simp only [] at hs
+      obtain ⟨m, h1, h2⟩ := rotList_new C old new tbl xs st an hwf.2 hn hs
+      exact ⟨m, h1, by rw [nsize_seq]; omega⟩
+    | some an0 =>
+      simp only [] at hs
+      cases hl : st.seen.lookup an0 with
+      | some n' => simp only [hl] at hs; exact absurd hn hs
+      | none =>
+        simp only [hl] at hs
+        by_cases e : an = an0
+        · subst e; exact ⟨_, hwf.1 an rfl, Nat.le_refl _⟩
+        · rw [lookup_cons_ne e] at hs
+          obtain ⟨m, h1, h2⟩ := rotList_new C old new tbl xs st an hwf.2 hn hs
+          exact ⟨m, h1, by rw [nsize_seq]; omega⟩
+  | .map a es, st, an, hwf, hn, hs => by
+    unfold WF at hwf
+    unfold rotNode at hs
+    cases a with
+    | none =>
+      simp only [] at hs
+      obtain ⟨m, h1, h2⟩ := rotEntries_new C old new tbl es st an hwf.2 hn hs
+      exact ⟨m, h1, by rw [nsize_map]; omega⟩
+    | some an0 =>
+      simp only [] at hs
+      cases hl : st.seen.lookup an0 with
+      | some n' => simp only [hl] at hs; exact absurd hn hs
+      | none =>
+        simp only [hl] at hs
+        by_cases e : an = an0
+        · subst e; exact ⟨_, hwf.1 an rfl, Nat.le_refl _⟩
+        · rw [lookup_cons_ne e] at hs
+          obtain ⟨m, h1, h2⟩ := rotEntries_new C old new tbl es st an hwf.2 hn hs
+          exact ⟨m, h1, by rw [nsize_map]; omega⟩
+  | .set a ms, st, an, _, hn, hs => by
+    unfold rotNode at hs; exact absurd hn hs
+theorem rotList_new (C : Cipher) (old new : Str) (tbl : Str → Option Node) :
+    ∀ (xs : List Node) (st : St) (an : Str), WFL C old tbl xs → st.seen.lookup an = none →
+      (rotList C old new xs st).2.seen.lookup an ≠ none → ∃ m, tbl an = some m ∧ nsize m ≤ nsizeL xs
+  | [], st, an, _, hn, hs => by unfold rotList at hs; exact absurd hn hs
+  | x :: xs, st, an, hwf, hn, hs => by
+    unfold WFL at hwf
+    unfold rotList at hs
+    simp only [] at hs
+    cases h1 : (rotNode C old new x st).2.seen.lookup an with
+    | some n' =>
+      obtain ⟨m, h2, h3⟩ := rotNode_new C old new tbl x st an hwf.1 hn (by rw [h1]; simp)
+      exact ⟨m, h2, by rw [nsizeL_cons]; omega⟩
+    | none =>
+      obtain ⟨m, h2, h3⟩ := rotList_new C old new tbl xs _ an hwf.2 h1 hs
+      exact ⟨m, h2, by rw [nsizeL_cons]; omega⟩
+theorem rotEntries_new (C : Cipher) (old new : Str) (tbl : Str → Option Node) :
+    ∀ (es : List (Key × Node)) (st : St) (an : Str), WFE C old tbl es → st.seen.lookup an = none →
+      (rotEntries C old new es st).2.seen.lookup an ≠ none → ∃ m, tbl an = some m ∧ nsize m ≤ nsizeE es
+  | [], st, an, _, hn, hs => by unfold rotEntries at hs; exact absurd hn hs
+  | (k, x) :: es, st, an, hwf, hn, hs => by
+    unfold WFE at hwf
+    unfold rotEntries at hs
+    simp only [] at hs
+    cases h1 : (rotNode C old new x st).2.seen.lookup an with
+    | some n' =>
+      obtain ⟨m, h2, h3⟩ := rotNode_new C old new tbl x st an hwf.1 hn (by rw [h1]; simp)
+      exact ⟨m, h2, by rw [nsizeE_cons]; omega⟩
+    | none =>
+      obtain ⟨m, h2, h3⟩ := rotEntries_new C old new tbl es _ an hwf.2 h1 hs
+      exact ⟨m, h2, by rw [nsizeE_cons]; omega⟩
+end
+
+/-- every recorded anchor names a node the loop records -/
+def KeysRec (tbl : Str → Option Node) (seen : List (Str × Node)) : Prop :=
+  ∀ an n', seen.lookup an = some n' → ∃ n, tbl an = some n ∧ recordable n = true
+
+/-- the anchor table of the output: the recorded image, else the (unchanged) input node -/
+def outTbl (tbl : Str → Option Node) (seen : List (Str × Node)) (an : Str) : Option Node :=
+  match seen.lookup an with
+  | some n' => some n'
+  | none => tbl an
+
+mutual
+/-- every anchored node of the tree is the one node `g` gives for its anchor name -/
+def AnchorsOne (g : Str → Option Node) : Node → Prop
+  | .scalar a v => ∀ an, a = some an → g an = some (.scalar a v)
+  | .seq a xs => (∀ an, a = some an → g an = some (.seq a xs)) ∧ AnchorsOneL g xs
+  | .map a es => (∀ an, a = some an → g an = some (.map a es)) ∧ AnchorsOneE g es
+  | .set _ _ => True
+def AnchorsOneL (g : Str → Option Node) : List Node → Prop
+  | [] => True
+  | x :: xs => AnchorsOne g x ∧ AnchorsOneL g xs
+def AnchorsOneE (g : Str → Option Node) : List (Key × Node) → Prop
+  | [] => True
+  | (_, x) :: es => AnchorsOne g x ∧ AnchorsOneE g es
+end
+
+/-- invariant of the anchor table for sharing: recorded anchors are recordable ones, and a recorded
+image is consistent with every later table -/
+def SInv (tbl : Str → Option Node) (seen : List (Str × Node)) : Prop :=
+  KeysRec tbl seen ∧
+  ∀ an n', seen.lookup an = some n' → ∀ F, Ext seen F → KeysRec tbl F → AnchorsOne (outTbl tbl F) n'
+
+theorem outTbl_of_lookup {tbl : Str → Option Node} {F : List (Str × Node)} {an : Str} {n' : Node}
+    (h : F.lookup an = some n') : outTbl tbl F an = some n' := by
+  unfold outTbl; rw [h]
+
+/-- an anchor whose node the loop does not record keeps its input node in every later table -/
+theorem outTbl_plain {tbl : Str → Option Node} {F : List (Str × Node)} {an : Str} {n : Node}
+    (hK : KeysRec tbl F) (ht : tbl an = some n) (hr : recordable n = false) : outTbl tbl F an = some n := by
+  unfold outTbl
+  cases hl : F.lookup an with
+  | none => exact ht
+  | some n' =>
+    obtain ⟨m, h1, h2⟩ := hK an n' hl
+    rw [ht] at h1; cases h1; rw [hr] at h2; cases h2
+
+/-- recording the image of a first visit keeps the invariant -/
+theorem record_step (tbl : Str → Option Node) (seen : List (Str × Node)) (an : Str) (n img : Node)
+    (hS : SInv tbl seen) (hnone : seen.lookup an = none) (ht : tbl an = some n) (hrec : recordable n = true)
+    (himg : ∀ F, Ext ((an, img) :: seen) F → KeysRec tbl F → AnchorsOne (outTbl tbl F) img) :
+    SInv tbl ((an, img) :: seen) := by
+  have hext := ext_cons hnone img
+  constructor
+  · intro an' n' hl
+    by_cases e : an' = an
+    · subst e; exact ⟨n, ht, hrec⟩
+    · rw [lookup_cons_ne e] at hl; exact hS.1 an' n' hl
+  · intro an' n' hl F hF hK
+    by_cases e : an' = an
+    · subst e
+      rw [lookup_cons_self] at hl; cases hl
+      exact himg F hF hK
+    · rw [lookup_cons_ne e] at hl
+      exact hS.2 an' n' hl F (hext.trans hF) hK
+
+mutual
+theorem rotNode_shared (C : Cipher) (old new : Str) (tbl : Str → Option Node) :
+    ∀ (n : Node) (st : St), WF C old tbl n → SInv tbl st.seen →
+      SInv tbl (rotNode C old new n st).2.seen ∧ Ext st.seen (rotNode C old new n st).2.seen ∧
+      ∀ F, Ext (rotNode C old new n st).2.seen F → KeysRec tbl F →
+        AnchorsOne (outTbl tbl F) (rotNode C old new n st).1
+  | .scalar a v, st, hwf, hS => by
+    unfold WF at hwf
+    have plain : recordable (.scalar a v) = false →
+        SInv tbl st.seen ∧ Ext st.seen st.seen ∧
+        ∀ F, Ext st.seen F → KeysRec tbl F → AnchorsOne (outTbl tbl F) (.scalar a v) := by
+      intro hr
+      refine ⟨hS, Ext.refl _, fun F _ hK => ?_⟩
+      unfold AnchorsOne
+      intro an ha
+      exact outTbl_plain hK (hwf.1 an ha) hr
+    cases v with
+    | str s =>
+      by_cases he : isEyaml s = true
+      · unfold rotNode
+        simp only [he, if_true]
+        cases a with
+        | none =>
+          simp only [rotValue_seen]
+          refine ⟨hS, Ext.refl _, fun F _ _ => ?_⟩
+          unfold AnchorsOne; intro an ha; cases ha
+        | some an0 =>
+          simp only []
+          cases hl : st.seen.lookup an0 with
+          | some n' =>
+            simp only []
+            exact ⟨hS, Ext.refl _, fun F hF hK => hS.2 an0 n' hl F hF hK⟩
+          | none =>
+            simp only [rotValue_seen]
+            have himg : ∀ F, Ext ((an0, Node.scalar (some an0) (rotValue C old new s st).1) :: st.seen) F →
+                KeysRec tbl F → AnchorsOne (outTbl tbl F) (.scalar (some an0) (rotValue C old new s st).1) := by
+              intro F hF _
+              unfold AnchorsOne
+              intro an ha; cases ha
+              exact outTbl_of_lookup (hF an0 _ (lookup_cons_self _ _ _))
+            refine ⟨record_step tbl st.seen an0 _ _ hS hl (hwf.1 an0 rfl) (by simp [recordable, he]) himg,
+              ext_cons hl _, himg⟩
+      · have hr : recordable (.scalar a (.str s)) = false := by simpa [recordable] using he
+        have := plain hr
+        unfold rotNode; simp only [he]; exact this
+    | _ => have := plain rfl; unfold rotNode; exact this
+  | .seq a xs, st, hwf, hS => by
+    unfold WF at hwf
+    have ih := rotList_shared C old new tbl xs st hwf.2 hS
+    unfold rotNode
+    cases a with
+    | none =>
+      simp only []
+      refine ⟨ih.1, ih.2.1, fun F hF hK => ?_⟩
+      unfold AnchorsOne
+      exact ⟨fun an ha => (by cases ha), ih.2.2 F hF hK⟩
+    | some an0 =>
+      simp only []
+      cases hl : st.seen.lookup an0 with
+      | some n' =>
+        simp only []
+        exact ⟨hS, Ext.refl _, fun F hF hK => hS.2 an0 n' hl F hF hK⟩
+      | none =>
+        simp only []
+        have htbl := hwf.1 an0 rfl
+        have hnone : (rotList C old new xs st).2.seen.lookup an0 = none := by
+          cases h : (rotList C old new xs st).2.seen.lookup an0 with
+          | none => rfl
+          | some x =>
+            obtain ⟨m, h1, h2⟩ := rotList_new C old new tbl xs st an0 hwf.2 hl (by rw [h]; simp)
+            rw [htbl] at h1; cases h1
+            rw [nsize_seq] at h2; omega
+        have hext := ext_cons hnone (Node.seq (some an0) (rotList C old new xs st).1)
+        have himg : ∀ F, Ext ((an0, Node.seq (some an0) (rotList C old new xs st).1) ::
+              (rotList C old new xs st).2.seen) F →
+            KeysRec tbl F → AnchorsOne (outTbl tbl F) (.seq (some an0) (rotList C old new xs st).1) := by
+          intro F hF hK
+          unfold AnchorsOne
+          refine ⟨fun an ha => ?_, ih.2.2 F (hext.trans hF) hK⟩
+          cases ha
+          exact outTbl_of_lookup (hF an0 _ (lookup_cons_self _ _ _))
+        exact ⟨record_step tbl _ an0 _ _ ih.1 hnone htbl rfl himg, ih.2.1.trans hext, himg⟩
+  | .map a es, st, hwf, hS => by
+    unfold WF at hwf
+    have ih := rotEntries_shared C old new tbl es st hwf.2 hS
+    unfold rotNode
+    cases a with
+    | none =>
+      simp only []
+      refine ⟨ih.1, ih.2.1, fun F hF hK => ?_⟩
+      unfold AnchorsOne
+      exact ⟨fun an ha => (by cases ha), ih.2.2 F hF hK⟩
+    | some an0 =>
+      simp only []
+      cases hl : st.seen.lookup an0 with
+      | some n' =>
+        simp only []
+        exact ⟨hS, Ext.refl _, fun F hF hK => hS.2 an0 n' hl F hF hK⟩
+      | none =>
+        simp only []
+        have htbl := hwf.1 an0 rfl
+        have hnone : (rotEntries C old new es st).2.seen.lookup an0 = none := by
+          cases h : (rotEntries C old new es st).2.seen.lookup an0 with
+          | none => rfl
+          | some x =>
+            obtain ⟨m, h1, h2⟩ := rotEntries_new C old new tbl es st an0 hwf.2 hl (by rw [h]; simp)
+            rw [htbl] at h1; cases h1
+            rw [nsize_map] at h2; omega
+        have hext := ext_cons hnone (Node.map (some an0) (rotEntries C old new es st).1)
+        have himg : ∀ F, Ext ((an0, Node.map (some an0) (rotEntries C old new es st).1) ::
+              (rotEntries C old new es st).2.seen) F →
+            KeysRec tbl F → AnchorsOne (outTbl tbl F) (.map (some an0) (rotEntries C old new es st).1) := by
+          intro F hF hK
+          unfold AnchorsOne
+          refine ⟨fun an ha => ?_, ih.2.2 F (hext.trans hF) hK⟩
+          cases ha
+          exact outTbl_of_lookup (hF an0 _ (lookup_cons_self _ _ _))
+        exact ⟨record_step tbl _ an0 _ _ ih.1 hnone htbl rfl himg, ih.2.1.trans hext, himg⟩
+  | .set a ms, st, _, hS => by
+    unfold rotNode
+    exact ⟨hS, Ext.refl _, fun F _ _ => by unfold AnchorsOne; trivial⟩
+theorem rotList_shared (C : Cipher) (old new : Str) (tbl : Str → Option Node) :
+    ∀ (xs : List Node) (st : St), WFL C old tbl xs → SInv tbl st.seen →
+      SInv tbl (rotList C old new xs st).2.seen ∧ Ext st.seen (rotList C old new xs st).2.seen ∧
+      ∀ F, Ext (rotList C old new xs st).2.seen F → KeysRec tbl F →
+        AnchorsOneL (outTbl tbl F) (rotList C old new xs st).1
+  | [], st, _, hS => by
+    unfold rotList
+    exact ⟨hS, Ext.refl _, fun F _ _ => by unfold AnchorsOneL; trivial⟩
+  | x :: xs, st, hwf, hS => by
+    unfold WFL at hwf
+    have h1 := rotNode_shared C old new tbl x st hwf.1 hS
+    have h2 := rotList_shared C old new tbl xs (rotNode C old new x st).2 hwf.2 h1.1
+    unfold rotList
+    simp only []
+    refine ⟨h2.1, h1.2.1.trans h2.2.1, fun F hF hK => ?_⟩
+    unfold AnchorsOneL
+    exact ⟨h1.2.2 F (h2.2.1.trans hF) hK, h2.2.2 F hF hK⟩
+theorem rotEntries_shared (C : Cipher) (old new : Str) (tbl : Str → Option Node) :
+    ∀ (es : List (Key × Node)) (st : St), WFE C old tbl es → SInv tbl st.seen →
+      SInv tbl (rotEntries C old new es st).2.seen ∧ Ext st.seen (rotEntries C old new es st).2.seen ∧
+      ∀ F, Ext (rotEntries C old new es st).2.seen F → KeysRec tbl F →
+        AnchorsOneE (outTbl tbl F) (rotEntries C old new es st).1
+  | [], st, _, hS => by
+    unfold rotEntries
+    exact ⟨hS, Ext.refl _, fun F _ _ => by unfold AnchorsOneE; trivial⟩
+  | (k, x) :: es, st, hwf, hS => by
+    unfold WFE at hwf
+    have h1 := rotNode_shared C old new tbl x st hwf.1 hS
+    have h2 := rotEntries_shared C old new tbl es (rotNode C old new x st).2 hwf.2 h1.1
+    unfold rotEntries
+    simp only []
+    refine ⟨h2.1, h1.2.1.trans h2.2.1, fun F hF hK => ?_⟩
+    unfold AnchorsOneE
+    exact ⟨h1.2.2 F (h2.2.1.trans hF) hK, h2.2.2 F hF hK⟩
+end
+
+theorem sinv_init (tbl : Str → Option Node) : SInv tbl St.init.seen :=
+  ⟨fun an n' h => by simp [St.init] at h, fun an n' h => by simp [St.init] at h⟩
+
+/-! ### once: the number of cipher calls -/
+
+mutual
+/-- number of encrypted scalars that carry no anchor themselves -/
+def bareCount : Node → Nat
+  | .scalar none v => if isSecret v then 1 else 0
+  | .scalar (some _) _ => 0
+  | .seq _ xs => bareCountL xs
+  | .map _ es => bareCountE es
+  | .set _ _ => 0
+def bareCountL : List Node → Nat
+  | [] => 0
+  | x :: xs => bareCount x + bareCountL xs
+def bareCountE : List (Key × Node) → Nat
+  | [] => 0
+  | (_, x) :: es => bareCount x + bareCountE es
+end
+
+mutual
+/-- the anchor names of the anchored encrypted scalars, one entry per occurrence -/
+def secretAnchors : Node → List Str
+  | .scalar (some an) v => if isSecret v then [an] else []
+  | .scalar none _ => []
+  | .seq _ xs => secretAnchorsL xs
+  | .map _ es => secretAnchorsE es
+  | .set _ _ => []
+def secretAnchorsL : List Node → List Str
+  | [] => []
+  | x :: xs => secretAnchors x ++ secretAnchorsL xs
+def secretAnchorsE : List (Key × Node) → List Str
+  | [] => []
+  | (_, x) :: es => secretAnchors x ++ secretAnchorsE es
+end
+
+/-- number of recorded scalar images -/
+def scalarEntries (seen : List (Str × Node)) : Nat := (seen.filter (fun e => e.2.isScalar)).length
+
+/-- every anchor is recorded once, and the recorded scalars are anchored secrets named in `names` -/
+def CInv (names : List Str) (seen : List (Str × Node)) : Prop :=
+  (seen.map (·.1)).Nodup ∧ ∀ e ∈ seen, e.2.isScalar = true → e.1 ∈ names
+
+theorem not_mem_keys_of_lookup_none {s : List (Str × Node)} {an : Str} (h : s.lookup an = none) :
+    an ∉ s.map (·.1) := by
+  intro hm
+  obtain ⟨p, hp, rfl⟩ := List.mem_map.mp hm
+  have := List.lookup_eq_none_iff.mp h p hp
+  simp at this
+
+theorem cinv_cons {names : List Str} {seen : List (Str × Node)} {an : Str} {img : Node}
+    (h : CInv names seen) (hn : seen.lookup an = none) (hi : img.isScalar = true → an ∈ names) :
+    CInv names ((an, img) :: seen) := by
+  refine ⟨?_, ?_⟩
+  · simp only [List.map_cons]
+    exact List.nodup_cons.mpr ⟨not_mem_keys_of_lookup_none hn, h.1⟩
+  · intro e he hs
+    rcases List.mem_cons.mp he with rfl | he
+    · exact hi hs
+    · exact h.2 e he hs
+
+theorem scalarEntries_le {names : List Str} {seen : List (Str × Node)} (h : CInv names seen) :
+    scalarEntries seen ≤ names.length := by
+  have hsub : ((seen.filter (fun e => e.2.isScalar)).map (·.1)).Sublist (seen.map (·.1)) :=
+    (List.filter_sublist (l := seen)).map _
+  have hnd := List.Nodup.sublist hsub h.1
+  have hss : (seen.filter (fun e => e.2.isScalar)).map (·.1) ⊆ names := by
+    intro x hx
+    obtain ⟨e, he, rfl⟩ := List.mem_map.mp hx
+    have := List.mem_filter.mp he
+    exact h.2 e this.1 this.2
+  have := List.Nodup.length_le_of_subset hnd hss
+  simpa [scalarEntries] using this
+
+theorem rotValue_decs (C : Cipher) (old new : Str) (s : Str) (st : St) :
+    (rotValue C old new s st).2.decs = st.decs + 1 := by
+  unfold rotValue
+  split
+  · rfl
+  · split <;> rfl
+
+theorem rotValue_nonce_le (C : Cipher) (old new : Str) (s : Str) (st : St) :
+    (rotValue C old new s st).2.nonce ≤ st.nonce + 1 := by
+  unfold rotValue
+  split
+  · simp
+  · split
+    · simp
+    · simp only []; split <;> omega
+
+theorem rotList_fresh (C : Cipher) (old new : Str) (tbl : Str → Option Node) (an0 : Str) (xs : List Node)
+    (st : St) (hwf : WFL C old tbl xs) (htbl : tbl an0 = some (.seq (some an0) xs))
+    (hl : st.seen.lookup an0 = none) : (rotList C old new xs st).2.seen.lookup an0 = none := by
+  cases h : (rotList C old new xs st).2.seen.lookup an0 with
+  | none => rfl
+  | some x =>
+    obtain ⟨m, h1, h2⟩ := rotList_new C old new tbl xs st an0 hwf hl (by rw [h]; simp)
+    rw [htbl] at h1; cases h1
+    rw [nsize_seq] at h2; omega
+
+theorem rotEntries_fresh (C : Cipher) (old new : Str) (tbl : Str → Option Node) (an0 : Str)
+    (es : List (Key × Node)) (st : St) (hwf : WFE C old tbl es) (htbl : tbl an0 = some (.map (some an0) es))
+    (hl : st.seen.lookup an0 = none) : (rotEntries C old new es st).2.seen.lookup an0 = none := by
+  cases h : (rotEntries C old new es st).2.seen.lookup an0 with
+  | none => rfl
+  | some x =>
+    obtain ⟨m, h1, h2⟩ := rotEntries_new C old new tbl es st an0 hwf hl (by rw [h]; simp)
+    rw [htbl] at h1; cases h1
+    rw [nsize_map] at h2; omega
+
+/-- what one walk may add to the two call counters -/
+def Calls (st st' : St) (bare : Nat) : Prop :=
+  st'.decs + scalarEntries st.seen ≤ st.decs + scalarEntries st'.seen + bare ∧
+  st'.nonce + scalarEntries st.seen ≤ st.nonce + scalarEntries st'.seen + bare
+
+theorem bareCountL_cons (x : Node) (xs : List Node) : bareCountL (x :: xs) = bareCount x + bareCountL xs := by
+  simp only [bareCountL]
+theorem bareCountE_cons (k : Key) (x : Node) (es : List (Key × Node)) :
+    bareCountE ((k, x) :: es) = bareCount x + bareCountE es := by
+  simp only [bareCountE]
+
+theorem calls_refl (st : St) (b : Nat) : Calls st st b := by unfold Calls; omega
+
+mutual
+theorem rotNode_once (C : Cipher) (old new : Str) (tbl : Str → Option Node) (names : List Str) :
+    ∀ (n : Node) (st : St), WF C old tbl n → (∀ an ∈ secretAnchors n, an ∈ names) → CInv names st.seen →
+      CInv names (rotNode C old new n st).2.seen ∧ Calls st (rotNode C old new n st).2 (bareCount n)
+  | .scalar a v, st, hwf, hnm, hc => by
+    unfold WF at hwf
+    cases v with
+    | str s =>
+      unfold rotNode
+      by_cases he : isEyaml s = true
+      · simp only [he, if_true]
+        cases a with
+        | none =>
+          simp only []
+          refine ⟨by rw [rotValue_seen]; exact hc, ?_⟩
+          have h1 := rotValue_decs C old new s st
+          have h2 := rotValue_nonce_le C old new s st
+          unfold Calls bareCount
+          simp only [isSecret, he, if_true, rotValue_seen]
+          omega
+        | some an0 =>
+          simp only []
+          cases hl : st.seen.lookup an0 with
+          | some n' => simp only []; exact ⟨hc, calls_refl _ _⟩
+          | none =>
+            simp only []
+            have hin : an0 ∈ names := hnm an0 (by unfold secretAnchors; simp [isSecret, he])
+            refine ⟨cinv_cons (by rw [rotValue_seen]; exact hc) (by rw [rotValue_seen]; exact hl) (fun _ => hin), ?_⟩
+            have h1 := rotValue_decs C old new s st
+            have h2 := rotValue_nonce_le C old new s st
+            unfold Calls
+            simp only [scalarEntries, List.filter_cons, Node.isScalar, if_true, List.length_cons, rotValue_seen]
+            omega
+      · have he' : isEyaml s = false := by simpa using he
+        simp only [he', Bool.false_eq_true, if_false]; exact ⟨hc, calls_refl _ _⟩
+    | _ => unfold rotNode; exact ⟨hc, calls_refl _ _⟩
+  | .seq a xs, st, hwf, hnm, hc => by
+    unfold WF at hwf
+    have ih := rotList_once C old new tbl names xs st hwf.2 (by unfold secretAnchors at hnm; exact hnm) hc
+    unfold rotNode
+    cases a with
+    | none => simp only []; unfold bareCount; exact ih
+    | some an0 =>
+      simp only []
+      cases hl : st.seen.lookup an0 with
+      | some n' => simp only []; exact ⟨hc, calls_refl _ _⟩
+      | none =>
+        simp only []
+        have hnone := rotList_fresh C old new tbl an0 xs st hwf.2 (hwf.1 an0 rfl) hl
+        refine ⟨cinv_cons ih.1 hnone (fun h => by simp [Node.isScalar] at h), ?_⟩
+        have := ih.2
+        unfold Calls bareCount at *
+        simp only [scalarEntries, List.filter_cons, Node.isScalar, Bool.false_eq_true, if_false] at *
+        exact this
+  | .map a es, st, hwf, hnm, hc => by
+    unfold WF at hwf
+    have ih := rotEntries_once C old new tbl names es st hwf.2 (by unfold secretAnchors at hnm; exact hnm) hc
+    unfold rotNode
+    cases a with
+    | none => simp only []; unfold bareCount; exact ih
+    | some an0 =>
+      simp only []
+      cases hl : st.seen.lookup an0 with
+      | some n' => simp only []; exact ⟨hc, calls_refl _ _⟩
+      | none =>
+        simp only []
+        have hnone := rotEntries_fresh C old new tbl an0 es st hwf.2 (hwf.1 an0 rfl) hl
+        refine ⟨cinv_cons ih.1 hnone (fun h => by simp [Node.isScalar] at h), ?_⟩
+        have := ih.2
+        unfold Calls bareCount at *
+        simp only [scalarEntries, List.filter_cons, Node.isScalar, Bool.false_eq_true, if_false] at *
+        exact this
+  | .set a ms, st, _, _, hc => by
+    unfold rotNode; exact ⟨hc, calls_refl _ _⟩
+theorem rotList_once (C : Cipher) (old new : Str) (tbl : Str → Option Node) (names : List Str) :
+    ∀ (xs : List Node) (st : St), WFL C old tbl xs → (∀ an ∈ secretAnchorsL xs, an ∈ names) → CInv names st.seen →
+      CInv names (rotList C old new xs st).2.seen ∧ Calls st (rotList C old new xs st).2 (bareCountL xs)
+  | [], st, _, _, hc => by unfold rotList; exact ⟨hc, calls_refl _ _⟩
+  | x :: xs, st, hwf, hnm, hc => by
+    unfold WFL at hwf
+    unfold secretAnchorsL at hnm
+    have h1 := rotNode_once C old new tbl names x st hwf.1 (fun an h => hnm an (List.mem_append_left _ h)) hc
+    have h2 := rotList_once C old new tbl names xs (rotNode C old new x st).2 hwf.2
+      (fun an h => hnm an (List.mem_append_right _ h)) h1.1
+    unfold rotList
+    simp only []
+    refine ⟨h2.1, ?_⟩
+    have a := h1.2; have b := h2.2
+    unfold Calls at a b ⊢
+    rw [bareCountL_cons]; omega
+theorem rotEntries_once (C : Cipher) (old new : Str) (tbl : Str → Option Node) (names : List Str) :
+    ∀ (es : List (Key × Node)) (st : St), WFE C old tbl es → (∀ an ∈ secretAnchorsE es, an ∈ names) →
+      CInv names st.seen →
+      CInv names (rotEntries C old new es st).2.seen ∧ Calls st (rotEntries C old new es st).2 (bareCountE es)
+  | [], st, _, _, hc => by unfold rotEntries; exact ⟨hc, calls_refl _ _⟩
+  | (k, x) :: es, st, hwf, hnm, hc => by
+    unfold WFE at hwf
+    unfold secretAnchorsE at hnm
+    have h1 := rotNode_once C old new tbl names x st hwf.1 (fun an h => hnm an (List.mem_append_left _ h)) hc
+    have h2 := rotEntries_once C old new tbl names es (rotNode C old new x st).2 hwf.2
+      (fun an h => hnm an (List.mem_append_right _ h)) h1.1
+    unfold rotEntries
+    simp only []
+    refine ⟨h2.1, ?_⟩
+    have a := h1.2; have b := h2.2
+    unfold Calls at a b ⊢
+    rw [bareCountE_cons]; omega
+end
+
 end Ypv.Rotate
